@@ -933,6 +933,9 @@ func (u *Unit) convert(st *State, v Value, t types.Type) Value {
 	if t == nil || v.T == nil {
 		return v
 	}
+	if v.T == types.Typ[types.UntypedNil] {
+		return u.zeroValue(t)
+	}
 	if isInterface(t) && !isInterface(v.T) && v.T != types.Typ[types.UntypedNil] {
 		return u.box(st, v, t)
 	}
